@@ -518,6 +518,11 @@ func runC14(c *mc.Ctx) {
 	if c.Thorough() {
 		encs = append(encs, c14Enc{Key: 0, P: 19, M: 784931, Count: 100000}, c14Enc{Key: 0, P: 32, M: 1 << 32, Count: 70000})
 	}
+	if c.Thorough() {
+		// two hashed values 2^63 or more apart (N*M just below 2^64): the encoding is about 2^31 bits
+		// long (256 MiB), so this single case runs on the thorough tier only
+		encs = append(encs, c14Enc{Key: 0, P: 32, M: 1<<63 - 1, Items: []string{mc.Hex([]byte("g-37982193")), mc.Hex([]byte("far-0"))}})
+	}
 	// quotient ladder (see c13QuotientLadder): every unary run length 0..139 in the first code word and,
 	// at eight bit alignments, in the second
 	for _, p := range mc.Pick(c, []uint8{0, 1, 19, 20, 32}, []uint8{0, 1, 2, 7, 8, 16, 19, 20, 24, 30, 31, 32}) {
